@@ -97,6 +97,7 @@ func newSchedWorld() *schedWorld {
 		sw.w.Exec(stack.OpDiscoveryReply(p, m))
 	}
 	spine.VerifSetYield(sw.sc.yield)
+	stack.ChainYield = sw.sc.yield
 	return sw
 }
 
@@ -114,6 +115,7 @@ func (sw *schedWorld) close() {
 		}
 	}
 	spine.VerifSetYield(nil)
+	stack.ChainYield = nil
 	sw.w.Close()
 }
 
@@ -1063,6 +1065,10 @@ func gen(r *hx.Rng, tier string, i int) []hx.Zs {
 		}
 		return raceSched(r)
 	}
+	if i%8 == 6 {
+		// a delete call of one peer overlapped by a bind call of another (atomicity of RemoveBinding)
+		return stack.DeleteOverlap(r, true)
+	}
 	if i%8 == 4 {
 		// two peers that cannot be told apart by address delete their own and each other's bindings
 		return withWire(stack.Twins(r, true))
@@ -1094,7 +1100,7 @@ func main() {
 		Count:   map[string]int{"quick": 3000, "thorough": 80000},
 		Extra: func() map[string]any {
 			return map[string]any{"implementation_outcomes": outcomes, "sequential_history_features": distSeq, "schedule_history_features": distSched,
-				"yield_hook": "AddBinding.checked (spine/binding_manager.go, build tag verif)"}
+				"yield_hook": "AddBinding.checked, RemoveBinding.filtered (spine/binding_manager.go, build tag verif)", "observed_overlaps": stack.OverlapStats()}
 		},
 	})
 }
